@@ -304,6 +304,48 @@ pub fn tail_binding_family() -> Vec<(String, Vec<Form>)> {
         );
         out.push((format!("case with keyword symbols as data, key {}", key), vec![Form::Expr(e)]));
     }
+    // case selects with eqv?: a freshly made list or vector is not eqv? to a structurally equal datum of a clause
+    let hit = |s: &str| CaseBody::Exprs(vec![Expr::Quote(kw(s))]);
+    let one_two = Datum::List(vec![Datum::Int(1), Datum::Int(2)], None);
+    out.push((
+        "case: fresh list key, equal list datum".into(),
+        vec![Form::Expr(Expr::Case(Box::new(app("list", vec![Expr::Int(1), Expr::Int(2)])), vec![(vec![one_two.clone()], hit("list-datum"))], Some(hit("miss"))))],
+    ));
+    out.push((
+        "case: fresh vector key, equal vector datum".into(),
+        vec![Form::Expr(Expr::Case(Box::new(app("vector", vec![Expr::Int(1)])), vec![(vec![Datum::Vector(vec![Datum::Int(1)]), Datum::Int(5)], hit("vector-datum"))], Some(hit("miss"))))],
+    ));
+    out.push((
+        "case: fresh list key, => receiver must not run".into(),
+        vec![Form::Expr(Expr::Case(
+            Box::new(app("cons", vec![Expr::Int(1), Expr::Quote(Datum::List(vec![Datum::Int(2)], None))])),
+            vec![(vec![one_two.clone(), Datum::Int(7)], CaseBody::Arrow(Box::new(lam(&["v"], Body { defs: vec![], exprs: vec![Expr::Tick(1, Box::new(Expr::Quote(kw("called"))))] }))))],
+            Some(hit("miss")),
+        ))],
+    ));
+    out.push((
+        "case: empty list key and datum".into(),
+        vec![Form::Expr(Expr::Case(Box::new(Expr::Quote(Datum::List(vec![], None))), vec![(vec![Datum::List(vec![], None)], hit("nil"))], Some(hit("miss"))))],
+    ));
+    // an error raised by a body form that is not the last one ends the whole form: the forms after it do not run
+    let boom = || app("car", vec![Expr::Quote(Datum::List(vec![], None))]);
+    let seq = || vec![Expr::Tick(1, Box::new(Expr::Int(0))), boom(), Expr::Tick(2, Box::new(Expr::Quote(kw("after"))))];
+    let bodies: Vec<(&str, Expr)> = vec![
+        ("begin", Expr::Begin(seq())),
+        ("let", Expr::Let(vec![("q".into(), Expr::Int(1))], Box::new(Body { defs: vec![], exprs: seq() }))),
+        ("let*", Expr::LetStar(vec![("q".into(), Expr::Int(1)), ("r".into(), var("q"))], Box::new(Body { defs: vec![], exprs: seq() }))),
+        ("when", Expr::When(Box::new(Expr::Bool(true)), seq())),
+        ("unless", Expr::Unless(Box::new(Expr::Bool(false)), seq())),
+        ("cond clause", Expr::Cond(vec![Clause::Then(Expr::Bool(true), seq())], None)),
+        ("cond else", Expr::Cond(vec![Clause::Then(Expr::Bool(false), vec![Expr::Int(1)])], Some(seq()))),
+        ("case clause", Expr::Case(Box::new(Expr::Int(1)), vec![(vec![Datum::Int(1)], CaseBody::Exprs(seq()))], None)),
+        ("case else", Expr::Case(Box::new(Expr::Int(1)), vec![(vec![Datum::Int(2)], CaseBody::Exprs(vec![Expr::Int(0)]))], Some(CaseBody::Exprs(seq())))),
+        ("lambda body", Expr::App(Box::new(lam(&[], Body { defs: vec![], exprs: seq() })), vec![])),
+        ("nested begin in let", Expr::Let(vec![("q".into(), Expr::Int(1))], body1(Expr::Begin(vec![Expr::Begin(seq()), Expr::Tick(3, Box::new(Expr::Int(9)))])))),
+    ];
+    for (name, e) in bodies {
+        out.push((format!("error in a non-final body form: {}", name), vec![Form::Expr(e), Form::Expr(Expr::Quote(kw("next-form")))]));
+    }
     out
 }
 
@@ -381,7 +423,7 @@ pub fn run(ctx: &Ctx) {
             Some(rep)
         });
     }
-    let cases = ctx.tier.pick(3_000, 60_000);
+    let cases = ctx.tier.pick(10_000, 60_000);
     let depth = ctx.tier.pick(4, 6);
     ctx.random("programs", cases, 800, |ch| random_case(ch, depth));
 }
